@@ -65,6 +65,29 @@ def lib_creds(name):
     return V3("user2", Auth(b"authpass-two", "sha1"), Priv(b"privpass-two", "vstream"))
 
 
+def lib_kwargs(key, val):
+    """keyword arguments of one configure()/reconfigure() call"""
+    if "+" in key:
+        return {k: lib_value(k, v) for k, v in zip(key.split("+"), val)}
+    return {key: lib_value(key, val)}
+
+
+def model_update(frame, key, val):
+    if "+" in key:
+        for k, v in zip(key.split("+"), val):
+            frame[k] = v
+    else:
+        frame[key] = val
+
+
+def creds_of(key, val):
+    """the credentials a call sets (None if it sets none)"""
+    if "+" in key:
+        d = dict(zip(key.split("+"), val))
+        return d.get("credentials")
+    return val if key == "credentials" else None
+
+
 def lib_value(key, value):
     if key == "credentials":
         return lib_creds(value)
@@ -157,6 +180,7 @@ SUBALPHABETS = {
     "credentials+request": dict(settings={"credentials": ["v2c:a", "v3:user1", "v3:user2"]}, request=True, bogus=False),
     "transport+context": dict(settings={"timeout": [6, 1], "retries": [10, 2], "context": ["default", "ctx-c"]}, request=False, bogus=True),
     "mixed": dict(settings={"credentials": ["v2c:b", "v1:a", "v3:user2"], "timeout": [1], "context": ["ctx-c"]}, request=False, bogus=True),
+    "several-settings-in-one-call": dict(settings={"credentials": ["v2c:a", "v1:a", "v3:user1"]}, request=False, bogus=False, multi=True, max_history={"quick": 4, "thorough": 6}),
     # one user name, changing passwords (keys derived from a password must
     # not outlive the credentials they were derived from)
     "same-user+request": dict(settings={"credentials": ["v3:user2", "v3:user2b", "v3:user2c", "v3:user2d"]}, request=True, bogus=False, max_history={"quick": 4, "thorough": 5}),
@@ -174,6 +198,13 @@ def events(sysm):
             out.append(("configure", key, v))
             if len(sysm.blocks) < MAX_NEST[0]:
                 out.append(("enter", key, v))
+    if sub.get("multi"):
+        # several settings in ONE call: credentials (possibly of another
+        # family) together with transport settings
+        for c in sub["settings"]["credentials"]:
+            out.append(("configure", "credentials+timeout+retries", (c, 1, 2)))
+            if len(sysm.blocks) < MAX_NEST[0]:
+                out.append(("enter", "credentials+timeout+retries", (c, 1, 2)))
     if sub["bogus"]:
         out.append(("configure", "bogus", 1))
         if len(sysm.blocks) < MAX_NEST[0]:
@@ -215,14 +246,15 @@ def step(sysm, ev):
                     bad("unknown-setting-changed-configuration")
             return out
         try:
-            c.configure(**{key: lib_value(key, val)})
+            c.configure(**lib_kwargs(key, val))
         except Exception as exc:  # noqa
             bad("configure-raised", exception=repr(exc)[:200])
             return out
-        if key == "credentials" and family(val) != family(sysm.stack[-1]["credentials"]):
+        newc = creds_of(key, val)
+        if newc is not None and family(newc) != family(sysm.stack[-1]["credentials"]):
             sysm.tokens[-1] = sysm.next_token
             sysm.next_token += 1
-        sysm.stack[-1][key] = val
+        model_update(sysm.stack[-1], key, val)
     elif name == "configure2":
         # credentials of (possibly) another family together with an unknown
         # setting: must be refused as a whole
@@ -240,7 +272,7 @@ def step(sysm, ev):
         key, val = ev[1], ev[2]
         before = c.config
         before_mpm = c.mpm
-        kwargs = {"bogus": 1} if key == "bogus" else {key: lib_value(key, val)}
+        kwargs = {"bogus": 1} if key == "bogus" else lib_kwargs(key, val)
         cm = c.reconfigure(**kwargs)
         try:
             cm.__enter__()
@@ -255,12 +287,13 @@ def step(sysm, ev):
             return out
         sysm.blocks.append((cm, before))
         frame = dict(sysm.stack[-1])
-        if key == "credentials" and family(val) != family(frame["credentials"]):
+        newc = creds_of(key, val)
+        if newc is not None and family(newc) != family(frame["credentials"]):
             sysm.tokens.append(sysm.next_token)
             sysm.next_token += 1
         else:
             sysm.tokens.append(sysm.tokens[-1])
-        frame[key] = val
+        model_update(frame, key, val)
         sysm.stack.append(frame)
     elif name in ("exit_ok", "exit_exc", "exit_cancel"):
         cm, before = sysm.blocks.pop()
